@@ -382,6 +382,14 @@ func (w *w7xWorld) checkCloseFrame(c *w7xConnState) {
 		s.Probe("server_end_after_write_fault")
 		return
 	}
+	if c.closedWhileStalled {
+		// a write was blocked in the socket (a peer that does not read) when the server
+		// gave up and closed it: the close frame could not be written behind that write
+		// (the transport waits a bounded time for the write lock, then closes). Same
+		// standing as a write fault. (C31-9-92: first write stalls 1.5 s, shutdown at 0)
+		s.Probe("server_end_while_a_write_was_stalled")
+		return
+	}
 	if cl.sentClose && cl.sentCloseSeq < cl.eofSeq {
 		return // the client closed first; the echo is not demanded here
 	}
